@@ -919,7 +919,8 @@ func c20CheckLog(c *ctx, rg *c07Rig) {
 				c.R.Violate("c20w:request-scheme-differs", fmt.Sprintf("the client's connection is %s, $request_scheme says %q\n request: %s", e.Scheme, f[11], e.Describe), in)
 			}
 			if u, err := url.ParseRequestURI(e.URI); err == nil {
-				want := (&url.URL{Scheme: e.Scheme, Host: e.Host, Path: u.Path, RawQuery: u.RawQuery}).String()
+				// the request's own URL keeps the client's encoding of the path and a bare '?'
+				want := (&url.URL{Scheme: e.Scheme, Host: e.Host, Path: u.Path, RawPath: u.RawPath, ForceQuery: u.ForceQuery, RawQuery: u.RawQuery}).String()
 				if f[12] != want {
 					c.R.Violate("c20w:request-url-differs", fmt.Sprintf("$request_url is %q, the standard library renders the client's request as %q\n request: %s", f[12], want, e.Describe), in)
 				}
